@@ -8,3 +8,5 @@ for c in "$@"; do
   echo "  -> exit $?"
 done
 git -C /repo checkout -- . && git -C /repo status --short | head -3
+# evidence files written while a seeded change was applied are not evidence: restore the committed ones
+git -C /verif checkout -- evidence 2>/dev/null
